@@ -270,8 +270,18 @@ def elementary_params(draw, kind, wide=False):
             A = 1.0
         D, E, F = (draw(st.sampled_from([0.0, 0.0, 0.5, -1.0, 1.0]))
                    for _ in range(3))
-        G = draw(st.sampled_from([-1.0, -4.0, -0.25, -9.0, 1.0, 2.0]))
+        G = draw(st.sampled_from([-1.0, -4.0, -0.25, -9.0, 1.0, 2.0, 0.0,
+                                  0.0]))
         cen = draw(point(3.0))
+        if G == 0:
+            # a quadric through its reference point (the usual way to write
+            # an axis-parallel cone or a paraboloid); x^2+y^2 = 0 and the like
+            # are not surfaces
+            quad = [v for v in (A, B, C) if v != 0]
+            if not (D or E or F) and (min(quad) > 0 or max(quad) < 0):
+                G = -1.0
+            else:
+                labels.append('sq:G=0')
         if G > 0:
             labels.append('sq:positive-at-centre')
         return 'sq', [A, B, C, D, E, F, G] + cen, labels
